@@ -838,7 +838,11 @@ void GlobalGraph::makeDirected()
       Node nodeB = currRelation.first;
       Edge edge = currRelation.second;
       if (alreadyConvertedRelations.insert(pair<Node, Node>(min(nodeA, nodeB), max(nodeA, nodeB))).second)
+      {
         linkInNodeStructure_(nodeA, nodeB, edge);
+        // the edge structure must tell the direction that was kept
+        linkInEdgeStructure_(nodeA, nodeB, edge);
+      }
     }
   }
   directed_ = true;
